@@ -473,9 +473,19 @@ def rule_F1(repo: Repo) -> RuleResult:
             elif cn == "factorize_arrow_arr":
                 routes += 1
                 fa = fz.func("factorize_arrow_arr")
-                if any(isinstance(x, ast.Call) and norm(x.func).endswith(".dictionary_encode") for x in ast.walk(fa.node)) \
-                        and any("indices" in norm(x) for x in ast.walk(fa.node) if isinstance(x, ast.Attribute)):
-                    res.ok(f1, n, norm(n), "delegated: arrow dictionary_encode, null indices become -1 via to_numpy")
+                encodes = any(isinstance(x, ast.Call) and norm(x.func).endswith(".dictionary_encode") for x in ast.walk(fa.node)) \
+                    and any("indices" in norm(x) for x in ast.walk(fa.node) if isinstance(x, ast.Attribute))
+                # the indices of null keys are null: they must be given the sentinel before they become a NumPy array
+                # (to_numpy alone yields float64 with NaN)
+                filled = any(isinstance(x, ast.Call) and isinstance(x.func, ast.Attribute) and x.func.attr == "fill_null"
+                             and x.args and const_int(x.args[0]) == -1 and "indices" in norm(x.func.value) for x in ast.walk(fa.node))
+                if encodes and filled:
+                    res.ok(f1, n, norm(n), "delegated: arrow dictionary_encode, null indices filled with -1")
+                elif encodes:
+                    res.bad(fa, fa.node, "factorize_arrow_arr: indices -> to_numpy without fill_null(-1)",
+                            "the dictionary indices of null keys are null; converted to NumPy without the sentinel they become NaN in a "
+                            "float64 array: null keys of arrow / polars key arrays have no integer code (the kernels fail to compile, "
+                            "factorize_1d returns float codes)")
                 else:
                     res.bad(f1, n, norm(n), "arrow route no longer dictionary-encodes")
         if isinstance(n, ast.Attribute) and n.attr == "codes" and isinstance(n.ctx, ast.Load) and "cat" in norm(n.value):
